@@ -51,8 +51,9 @@ func (s *copyService) SetChannel(c pushers.Channel) {
 	s.c = c
 }
 
-// udpReplyWait is how long the copy service keeps relaying replies to one datagram.
-const udpReplyWait = 5 * time.Second
+// udpReplyWait is how long the copy service keeps relaying replies to one datagram;
+// every datagram occupies a socket (and a local port) for that long.
+const udpReplyWait = 2 * time.Second
 
 func (s *copyService) Handle(ctx context.Context, conn net.Conn) error {
 	defer conn.Close()
